@@ -1,7 +1,7 @@
 // C20 harness: on-demand pull against a scriptable fake camera.
 //
 // A case is  (cfg rounds):
-//   cfg    = (creds tracks sdpkind urlkind keepalive routed)
+//   cfg    = (creds tracks sdpkind urlkind keepalive routed split)
 //   rounds = list of (again script) ; script = list of reply kinds
 // One round = one media.GetOrCreate(path) against a fake RTSP camera (a TCP listener on
 // 127.0.0.1:0) that answers the n-th request it reads with the n-th reply kind of the script
@@ -126,6 +126,8 @@ type camera struct {
 	kick     chan struct{}
 	repl     bool           // replaced-pull scenario: each connection is gated and commanded on its own
 	arrived  chan *camConn  // a connection whose first request has been read
+	pinging  bool           // play phase that ends in a silence: keep the line busy until the silence starts
+	split    bool           // an answer with a body goes out in two segments (headers + half of the body, then the rest)
 }
 
 // one camera connection of the replaced-pull scenario
@@ -147,6 +149,30 @@ func (c *camera) next() int64 {
 	k := c.script[c.pos]
 	c.pos++
 	return k
+}
+
+// the next script item (the reply to the next request) is a silence
+func (c *camera) nextIsSilence() bool {
+	c.mu.Lock()
+	defer c.mu.Unlock()
+	return !c.conc && !c.repl && c.pos < len(c.script) && c.script[c.pos] == kSilence
+}
+
+// the play phase that starts now ends in a silence (the first event that is not a packet or an unsolicited response)
+func (c *camera) playEndsInSilence() bool {
+	c.mu.Lock()
+	defer c.mu.Unlock()
+	if c.conc || c.repl {
+		return false
+	}
+	for _, k := range c.script[c.pos:] {
+		switch k {
+		case kOk, kBasic, kDigest, kAuthOther, kErr4, kErr5:
+			continue
+		}
+		return k == kSilence
+	}
+	return false
 }
 
 func md5hex(s string) string { d := md5.Sum([]byte(s)); return hex.EncodeToString(d[:]) }
@@ -281,7 +307,7 @@ func (c *camera) serve(conn net.Conn) {
 	defer closeConn(false)
 	br := bufio.NewReader(conn)
 	drain := func() { // wait for the peer to go away (bounded), then close
-		conn.SetReadDeadline(time.Now().Add(6 * time.Second))
+		conn.SetReadDeadline(time.Now().Add(drainBound))
 		buf := make([]byte, 4096)
 		for {
 			_, err := br.Read(buf)
@@ -309,7 +335,7 @@ func (c *camera) serve(conn net.Conn) {
 			c.arrived <- cc
 			select {
 			case <-cc.gate:
-			case <-time.After(20 * time.Second):
+			case <-time.After(2 * bound):
 			}
 		}
 		c.mu.Lock()
@@ -317,6 +343,20 @@ func (c *camera) serve(conn net.Conn) {
 		c.mu.Unlock()
 		nreq++
 		k := c.next()
+		// The client under test reads every response under config.NetTimeout().  It is long (longTO) except
+		// for the one read that is the time-out scenario: the camera shortens it just before it answers the
+		// step that precedes the silence, so the short deadline only ever covers "request sent, nothing comes".
+		switch k {
+		case kOk, kBasic, kDigest, kAuthOther, kErr4, kErr5:
+			if k == kOk && rec.method == "PLAY" {
+				if c.playEndsInSilence() {
+					config.VerifSetNetTimeout(shortTO) // playStream reads the time-out once, when it starts
+					c.pinging = true
+				}
+			} else if c.nextIsSilence() {
+				config.VerifSetNetTimeout(shortTO)
+			}
+		}
 		head := func(code int, text string) string {
 			return fmt.Sprintf("RTSP/1.0 %d %s\r\nCSeq: %s\r\nServer: c20-camera\r\n", code, text, cseq)
 		}
@@ -326,8 +366,18 @@ func (c *camera) serve(conn net.Conn) {
 			case "OPTIONS":
 				io.WriteString(conn, head(200, "OK")+"Public: OPTIONS, DESCRIBE, SETUP, PLAY, TEARDOWN\r\n\r\n")
 			case "DESCRIBE":
-				io.WriteString(conn, head(200, "OK")+"Content-Type: application/sdp\r\nContent-Length: "+
-					strconv.Itoa(len(c.sdp))+"\r\n\r\n"+c.sdp)
+				msg := head(200, "OK") + "Content-Type: application/sdp\r\nContent-Length: " +
+					strconv.Itoa(len(c.sdp)) + "\r\n\r\n" + c.sdp
+				if c.split && len(c.sdp) > 1 {
+					// the body reaches the client in two reads: the rest is sent after the client had time to
+					// consume the first segment (if it is slower than that the two segments merely merge)
+					cut := len(msg) - len(c.sdp)/2
+					io.WriteString(conn, msg[:cut])
+					time.Sleep(120 * time.Millisecond)
+					io.WriteString(conn, msg[cut:])
+				} else {
+					io.WriteString(conn, msg)
+				}
 			case "SETUP":
 				io.WriteString(conn, head(200, "OK")+"Transport: RTP/AVP/TCP;unicast;interleaved=0-1\r\nSession: "+camSess+";timeout=60\r\n\r\n")
 			case "PLAY":
@@ -403,7 +453,7 @@ func (c *camera) playRepl(conn net.Conn, cc *camConn, closeConn func(bool), drai
 				<-gone
 				return
 			}
-		case <-time.After(30 * time.Second):
+		case <-time.After(4 * bound):
 			return
 		}
 	}
@@ -413,7 +463,7 @@ func (c *camera) play(conn net.Conn, br *bufio.Reader, closeConn func(bool), dra
 	if c.conc {
 		select {
 		case <-c.kick:
-		case <-time.After(20 * time.Second):
+		case <-time.After(2 * bound):
 		}
 		c.mu.Lock()
 		pkt := c.rtpPacket()
@@ -432,10 +482,32 @@ func (c *camera) play(conn net.Conn, br *bufio.Reader, closeConn func(bool), dra
 		}
 		return
 	}
+	// a play phase that ends in a silence runs under the short time-out from its start (playStream reads it
+	// once): unsolicited responses, which the client ignores, keep its read deadline moving until the silence
+	stopPing := func() {}
+	if c.pinging {
+		stop, stopped := make(chan struct{}), make(chan struct{})
+		go func() {
+			defer close(stopped)
+			t := time.NewTicker(shortTO / 10)
+			defer t.Stop()
+			for {
+				select {
+				case <-stop:
+					return
+				case <-t.C:
+					io.WriteString(conn, "RTSP/1.0 200 OK\r\nCSeq: 0\r\n\r\n")
+				}
+			}
+		}()
+		var once sync.Once
+		stopPing = func() { once.Do(func() { close(stop); <-stopped }) }
+		defer stopPing()
+	}
 	if os.Getenv("C20_UNGATED") == "" { // (experiments only: let the play events run without waiting for the harness)
 		select {
 		case <-c.gate:
-		case <-time.After(20 * time.Second):
+		case <-time.After(2 * bound):
 		}
 	}
 	for {
@@ -457,6 +529,7 @@ func (c *camera) play(conn net.Conn, br *bufio.Reader, closeConn func(bool), dra
 			drain()
 			return
 		case kSilence:
+			stopPing()
 			drain()
 			return
 		case kReset:
@@ -477,12 +550,7 @@ func (c *camera) play(conn net.Conn, br *bufio.Reader, closeConn func(bool), dra
 var consumerGot int32
 
 func (c *camera) waitSync() {
-	for i := 0; i < 400; i++ {
-		if atomic.LoadInt32(&consumerGot) >= atomic.LoadInt32(&c.sent) {
-			return
-		}
-		time.Sleep(5 * time.Millisecond)
-	}
+	waitFor(bound, func() bool { return atomic.LoadInt32(&consumerGot) >= atomic.LoadInt32(&c.sent) })
 }
 
 func (c *camera) acceptLoop() {
@@ -543,8 +611,10 @@ func clientConns(port int) int64 {
 	return n
 }
 
+// waitFor polls for an event.  The bound is generous: it is only ever reached when something is really wrong.
 func waitFor(d time.Duration, f func() bool) bool {
 	end := time.Now().Add(d)
+	nap := time.Millisecond
 	for {
 		if f() {
 			return true
@@ -552,27 +622,55 @@ func waitFor(d time.Duration, f func() bool) bool {
 		if time.Now().After(end) {
 			return false
 		}
-		time.Sleep(3 * time.Millisecond)
+		time.Sleep(nap)
+		if nap < 40*time.Millisecond {
+			nap *= 2
+		}
 	}
 }
 
-var leakSeen bool
+// awaited = waitFor with the general bound; a bound that is exceeded makes the process give up on the cases
+// that follow (they are answered "!skip" and re-run in a fresh process by the check): what it has just
+// observed is reported as it is, but nothing is measured any more next to leftovers of a failed case
+func awaited(f func() bool) bool {
+	if waitFor(bound, f) {
+		return true
+	}
+	aborted = true
+	return false
+}
 
 var (
-	once       sync.Once
-	netTimeout = 700 * time.Millisecond
-	deadPort   string
+	once     sync.Once
+	deadPort string
+	aborted  bool
+	// the client's response deadline (config.NetTimeout): long wherever the scenario is not a time-out, so that a
+	// merely slow step never looks like a silent camera; short only for the read that waits for a silent camera
+	longTO  = 20 * time.Second
+	shortTO = 2 * time.Second
+	// upper bound of every wait for an event (registration, clean-up, delivery, ...)
+	bound = 30 * time.Second
+	// watchdog of the request itself; shorter than the camera's patience (drainBound), so that a requester
+	// which hangs on a silent camera is seen hanging instead of being released by the camera's own close
+	hangBound  = 25 * time.Second
+	drainBound = 90 * time.Second
 )
+
+func envDur(name string, d *time.Duration) {
+	if v := os.Getenv(name); v != "" {
+		if n, err := strconv.Atoi(v); err == nil {
+			*d = time.Duration(n) * time.Millisecond
+		}
+	}
+}
 
 func setup() {
 	once.Do(func() {
 		xlog.ReplaceGlobal(xlog.New(xlog.NewNopCore()))
-		if v := os.Getenv("C20_TIMEOUT_MS"); v != "" {
-			if n, err := strconv.Atoi(v); err == nil {
-				netTimeout = time.Duration(n) * time.Millisecond
-			}
-		}
-		config.VerifSetNetTimeout(netTimeout)
+		envDur("C20_SHORT_MS", &shortTO)
+		envDur("C20_LONG_MS", &longTO)
+		envDur("C20_BOUND_MS", &bound)
+		config.VerifSetNetTimeout(longTO)
 		// a leaked connection that nothing references any more would be closed by the finalizer of its
 		// net.Conn at the next garbage collection: collect only between cases so that it stays visible
 		debug.SetGCPercent(-1)
@@ -640,8 +738,16 @@ func (w *world) round(r Val) Val {
 		connectKind = script[0]
 		script = script[1:]
 	}
+	// every round starts with the long response deadline; if the very first request meets the silence, the
+	// short one is in force from the start (nothing but the connect precedes it)
+	config.VerifSetNetTimeout(longTO)
+	if connectKind == kOk && len(script) > 0 && script[0] == kSilence {
+		config.VerifSetNetTimeout(shortTO)
+	}
+	defer config.VerifSetNetTimeout(longTO)
 	cam.mu.Lock()
 	cam.script, cam.pos, cam.reqs = script, 0, nil
+	cam.pinging = false
 	cam.gate = make(chan struct{})
 	cam.playDone = make(chan struct{})
 	accepted0 := cam.accepted
@@ -676,8 +782,9 @@ func (w *world) round(r Val) Val {
 	hung := false
 	select {
 	case got = <-ch:
-	case <-time.After(netTimeout*4 + 3*time.Second):
+	case <-time.After(hangBound):
 		hung = true
+		aborted = true
 	}
 	switch {
 	case hung:
@@ -692,22 +799,12 @@ func (w *world) round(r Val) Val {
 	}
 
 	// mid observation: the requester has its answer
-	midWait := 3 * time.Second
-	if leakSeen {
-		midWait = 150 * time.Millisecond
-	}
 	if outcome == 1 {
-		ok1 := waitFor(midWait, func() bool { return media.Get(w.path) == got.s })
-		ok2 := waitFor(midWait, func() bool {
-			return stats.RtspConns.GetSample().Active-w.base == 1
-		})
-		if !ok1 || !ok2 {
-			leakSeen = true
-		}
+		// playStream registers and counts from its own goroutine: wait for those events
+		awaited(func() bool { return media.Get(w.path) == got.s && stats.RtspConns.GetSample().Active-w.base == 1 })
 	} else if outcome == 0 {
-		// a failed pull must have cleaned up when the requester gets its answer; allow the
-		// camera goroutine a moment to notice the close (it only affects the fd count)
-		waitFor(2*time.Second, func() bool {
+		// a failed pull has cleaned up before the requester got its answer
+		awaited(func() bool {
 			c, _, _, g := w.resources()
 			return c == 0 && g == 0
 		})
@@ -736,30 +833,23 @@ func (w *world) round(r Val) Val {
 	cam.mu.Lock()
 	acc := cam.accepted
 	cam.mu.Unlock()
-	if acc > accepted0 {
-		limit := netTimeout*3 + 8*time.Second
-		if leakSeen {
-			limit = netTimeout + 300*time.Millisecond
-		}
+	if acc > accepted0 && !hung {
+		// the camera's connection handler returns when the script has ended and the client has gone
 		select {
 		case <-cam.playDone:
-		case <-time.After(limit):
-			leakSeen = true
+		case <-time.After(bound):
+			aborted = true
 		}
 	}
-	// the clean-up is asynchronous; once a leftover has been seen in this process (the run is failing
-	// anyway) later rounds do not wait long for states that will never come
-	settle := netTimeout + 3*time.Second
-	if leakSeen {
-		settle = 150 * time.Millisecond
-	}
-	if !waitFor(settle, func() bool {
-		c, r, n, g := w.resources()
-		return c == 0 && r == 0 && n == 0 && g == 0 && (cons == nil || atomic.LoadInt32(&cons.closed) == 1) &&
-			atomic.LoadInt32(&cam.open) == 0
-	}) {
-		leakSeen = true
-	}
+	// the clean-up of the pull client is asynchronous: wait for the clean state itself
+	awaited(func() bool {
+		if media.Get(w.path) != nil || stats.RtspConns.GetSample().Active-w.base != 0 ||
+			(cons != nil && atomic.LoadInt32(&cons.closed) != 1) || (atomic.LoadInt32(&cam.open) != 0 && !hung) {
+			return false
+		}
+		c, _, _, g := w.resources()
+		return c == 0 && g == 0
+	})
 	fc, fr, fn, fg := w.resources()
 	cc := int64(1)
 	if cons != nil {
@@ -812,8 +902,8 @@ func runCase(c Val) Val {
 	media.VerifResetRegistry()
 	route.Reset(mem{})
 	cam := newCamera(sdpFor(cfg.tracks, cfg.sdpkind))
+	cam.split = cf.At(6).Bool()
 	defer cam.ln.Close()
-	time.Sleep(time.Millisecond)
 	w := &world{cfg: cfg, cam: cam, path: "/c20/cam", base: stats.RtspConns.GetSample().Active}
 	outs := []Val{}
 	for _, r := range c.At(1).List() {
@@ -836,6 +926,7 @@ func concCase(c Val) Val {
 	cam.gate = make(chan struct{})
 	cam.kick = make(chan struct{})
 	defer cam.ln.Close()
+	config.VerifSetNetTimeout(longTO)
 	w := &world{cfg: cfgT{creds: 1, routed: true}, cam: cam, path: "/c20/cam", base: stats.RtspConns.GetSample().Active}
 	route.Save(&route.Route{Pattern: w.path, URL: w.routeURL(false), KeepAlive: true})
 	var arrivals int32
@@ -861,13 +952,14 @@ func concCase(c Val) Val {
 	}
 	close(start)
 	got := []*media.Stream{}
-	timeout := time.After(netTimeout*4 + 5*time.Second)
+	timeout := time.After(bound)
 	for i := 0; i < n; i++ {
 		select {
 		case s := <-res:
 			got = append(got, s)
 		case <-timeout:
 			i = n
+			aborted = true
 		}
 	}
 	answers := int64(0)
@@ -877,21 +969,14 @@ func concCase(c Val) Val {
 		}
 	}
 	// every pull client has registered; then a packet on every connection tells the replaced ones
-	waitFor(3*time.Second, func() bool {
+	awaited(func() bool {
 		return stats.RtspConns.GetSample().Active-w.base == int64(atomic.LoadInt32(&cam.open)) && media.Get(w.path) != nil
 	})
-	time.Sleep(5 * time.Millisecond)
 	close(cam.kick)
-	settle := netTimeout + 3*time.Second
-	if leakSeen {
-		settle = 300 * time.Millisecond
-	}
-	if !waitFor(settle, func() bool {
+	awaited(func() bool {
 		cn, r, k, g := w.resources()
 		return cn == 1 && r == 1 && k == 1 && g == 1
-	}) {
-		leakSeen = true
-	}
+	})
 	cn, _, k, g := w.resources()
 	live := int64(0) // distinct live streams among the answers (a late requester may have been given the registered one)
 	seen := map[*media.Stream]bool{}
@@ -910,15 +995,10 @@ func concCase(c Val) Val {
 		}
 	}
 	close(cam.gate)
-	if leakSeen {
-		settle = 300 * time.Millisecond
-	}
-	if !waitFor(settle, func() bool {
+	awaited(func() bool {
 		cn, r, k, g := w.resources()
 		return cn == 0 && r == 0 && k == 0 && g == 0 && atomic.LoadInt32(&cam.open) == 0
-	}) {
-		leakSeen = true
-	}
+	})
 	fc, fr, fk, fg := w.resources()
 	if s := media.Get(w.path); s != nil {
 		media.Unregist(s)
@@ -959,6 +1039,7 @@ func replCase(c Val) Val {
 	cam.arrived = make(chan *camConn, 8)
 	cam.mu.Unlock()
 	defer cam.ln.Close()
+	config.VerifSetNetTimeout(longTO)
 	w := &world{cfg: cfgT{creds: 0, routed: true}, cam: cam, path: "/c20/cam", base: stats.RtspConns.GetSample().Active}
 	route.Save(&route.Route{Pattern: w.path, URL: w.routeURL(false), KeepAlive: c.At(7).Bool()})
 
@@ -975,21 +1056,15 @@ func replCase(c Val) Val {
 		}()
 		select {
 		case conn[i] = <-cam.arrived:
-		case <-time.After(5 * time.Second):
-			panic("c20repl: the requester did not reach the camera")
+		case <-time.After(bound):
+			aborted = true
+			return L(S("!uneval")) // the set-up was not achieved: nothing to judge
 		}
 	}
 	order := [2]int{first, 1 - first} // requester index of stream "1" and stream "2"
 	var st [2]*media.Stream
 	var cons [2]*cntConsumer
-	wait := func(d time.Duration, f func() bool) {
-		if leakSeen && d > 300*time.Millisecond {
-			d = 300 * time.Millisecond
-		}
-		if !waitFor(d, f) {
-			leakSeen = true
-		}
-	}
+	wait := func(d time.Duration, f func() bool) { awaited(f) }
 	defer verifhook.SetPoint(nil)
 	for n := 0; n < 2; n++ {
 		if n == 1 && (t1 == 2 || t1 == 3) {
@@ -1011,7 +1086,8 @@ func replCase(c Val) Val {
 		close(conn[order[n]].gate)
 		select {
 		case st[n] = <-res[order[n]]:
-		case <-time.After(netTimeout*4 + 5*time.Second):
+		case <-time.After(bound):
+			aborted = true
 		}
 		if st[n] == nil {
 			panic("c20repl: a requester got no stream from an all-ok camera")
@@ -1026,7 +1102,7 @@ func replCase(c Val) Val {
 	}
 	verifhook.SetPoint(nil)
 	if st[0] == st[1] {
-		panic("c20repl: the two requests did not overlap (set-up)")
+		return L(S("!uneval")) // the two requests did not overlap: the set-up was not achieved
 	}
 	if t1 == 4 { // the first requester joins the stream it was handed only now
 		cons[0] = &cntConsumer{}
@@ -1040,11 +1116,10 @@ func replCase(c Val) Val {
 				exp++
 			}
 		}
-		wait(netTimeout+3*time.Second, func() bool {
+		wait(bound, func() bool {
 			cn, _, k, g := w.resources()
 			return cn == exp && k == exp && g == exp
 		})
-		time.Sleep(2 * time.Millisecond)
 		cn, _, k, g := w.resources()
 		cl := [2]int64{}
 		for i := 0; i < 2; i++ {
@@ -1084,16 +1159,35 @@ func replCase(c Val) Val {
 	for i := 0; i < 2; i++ {
 		media.Unregist(st[i])
 		st[i].Close()
+	}
+	for i := 0; i < 2; i++ {
 		select {
 		case <-conn[i].done:
-		case <-time.After(300 * time.Millisecond):
+		case <-time.After(bound):
+			aborted = true
 		}
 	}
 	return L(o1, o2, o3)
 }
 
+// a case is only measured in a process that is clean: no pull goroutine left from an earlier case, and no
+// earlier wait that ran into its bound; otherwise the answer is "!skip" and the check re-runs the case in a
+// fresh process
+func guarded(f func(Val) Val) func(Val) Val {
+	return func(c Val) Val {
+		setup()
+		if !aborted && pullGoroutines() != 0 {
+			awaited(func() bool { return pullGoroutines() == 0 })
+		}
+		if aborted {
+			return L(S("!skip"))
+		}
+		return f(c)
+	}
+}
+
 func init() {
-	commands["C20"] = runCase
-	commands["C20conc"] = concCase
-	commands["C20repl"] = replCase
+	commands["C20"] = guarded(runCase)
+	commands["C20conc"] = guarded(concCase)
+	commands["C20repl"] = guarded(replCase)
 }
